@@ -225,7 +225,7 @@ def ops : List String → Option String
       match readHeaders ⟨ev, t, none⟩ with
       | (.ok h, s', n) =>
         some (if hasNonAscii ev then "unmodelled" else
-          s!"ok {oOptInt h.status} {oOptStr h.msg} {oDict h.headers} reads={n} left={s'.inp.length}")
+          s!"ok {oOptInt h.status} {oOptStr h.msg} {oDict h.headers} reads={n} left={(s'.inp.filter (fun e => match e with | .byte _ => true | _ => false)).length}")
       | (.error e, _, n) =>
         some (if hasNonAscii ev ∧ e ≠ .internal "UnicodeDecodeError" ∧ ¬ (Gen.h2DecodeGuard ∧ e = .wsgeneric)
               then "unmodelled" else s!"exn {e.toStr} reads={n}")
